@@ -631,9 +631,11 @@ impl CanonicalRequest {
         let mut missing_messages = Vec::new();
         let mut builder = SigV4Authenticator::builder();
 
-        // Rule 7c: Use the first value for each key.
+        // Rule 7c: Use the first value for each key. The values in `query_parameters` are in normalized
+        // (percent-encoded) form, so those that are interpreted rather than compared verbatim must be decoded:
+        // a credential's '/' separators, for example, are stored as `%2F`.
         if let Some(credential) = self.query_parameters.get(X_AMZ_CREDENTIAL) {
-            builder.credential(credential[0].clone());
+            builder.credential(unescape_uri_encoding(&credential[0]));
         } else {
             missing_messages.push(MSG_QUERY_STRING_MUST_INCLUDE_CREDENTIAL);
         }
@@ -668,10 +670,10 @@ impl CanonicalRequest {
 
         // Get the session token if present.
         if let Some(token) = self.query_parameters.get(X_AMZ_SECURITY_TOKEN) {
-            builder.session_token(token[0].clone());
+            builder.session_token(unescape_uri_encoding(&token[0]));
         }
 
-        let timestamp_str = timestamp_str.expect("date_str should be set")[0].clone();
+        let timestamp_str = unescape_uri_encoding(&timestamp_str.expect("date_str should be set")[0]);
         Ok(AuthParams {
             builder,
             signed_headers,
